@@ -94,7 +94,8 @@ def dowhile_doc(sh):
     fm = fixmeth(sh)
     fixref = "%s:%s" % (n["fix"], fm)
     im = sh.get("meth", "output")
-    ifile = "/state.txt" if sh.get("file") else ""
+    cfile = "/state.txt" if sh.get("cfile") else ""                       # the path is part of the consumer's reference ...
+    ifile = "/state.txt" if (sh.get("file") and not cfile) else ""        # ... or of the binding values
     doc = {"type": "DoWhile", "inputBindings": {"inp": {"type": im}, n["fix"]: {"type": fm}}}
     if sh["carry"] != "none":
         b = body(sh, sh["carry"])
@@ -102,8 +103,8 @@ def dowhile_doc(sh):
         doc["loopBindings"] = {"inp": "%s%s%s:%s" % ("stage%d." % b if (b or not ifile) else "", n[sh["carry"]], ifile, im)}
     cr = sh["cond"]
     doc["condition"] = cond_ref(sh, body(sh, cr), n[cr])
-    w = {"name": n["W"], "stage": sh["sw"], "command": {"executable": "echo", "arguments": "%s %s" % ("state.txt" if im == "copy" else "inp:%s" % im, fixref)},      # a :copy reference is staged, not substituted
-         "references": ["inp:%s" % im, fixref]}
+    w = {"name": n["W"], "stage": sh["sw"], "command": {"executable": "echo", "arguments": "%s %s" % ("state.txt" if im == "copy" else "inp%s:%s" % (cfile, im), fixref)},      # a :copy reference is staged, not substituted
+         "references": ["inp%s:%s" % (cfile, im), fixref]}
     if sh["repl"]:
         w["workflowAttributes"] = {"replicate": sh["repl"]}
     comps = [w]
@@ -150,7 +151,7 @@ def main_doc(sh):
         comps.append(echo("pad%d" % s, s))          # no empty stage
     for d in loops(sh):
         comps.append({"name": "loop%d" % d, "stage": off(sh, d), "$import": "dowhile.yaml",
-                      "bindings": {"inp": "stage0.gen%s:%s" % ("/state.txt" if sh.get("file") else "", sh.get("meth", "output")),
+                      "bindings": {"inp": "stage0.gen%s:%s" % ("/state.txt" if (sh.get("file") and not sh.get("cfile")) else "", sh.get("meth", "output")),
                                    n["fix"]: "stage0.src:%s" % fixmeth(sh)}})
     for d in loops(sh):
         for m in METHS:
@@ -244,6 +245,9 @@ class RealLoop:
         self.stdout_done = set()
         self.controller = None
         self.components = []          # the graph only keeps weak references to the ComponentState objects
+        self.content = {}             # node -> what its stdout holds when it is not its own name (a condition answer)
+        self.k_of_loop = {d: 0 for d in loops(sh)}
+        self.unrecognised = None
 
     def doc_id(self, d):
         return "stage%d.loop%d" % (off(self.sh, d), d)
@@ -269,8 +273,39 @@ class RealLoop:
         if self.controller is None:
             return self.wg.instantiate_dowhile_next_iteration(meta["document"], i, True)
         before = set(self.wg.graph.nodes)
-        self.controller._instantiate_next_dowhile_iteration(meta)
+        if not self.answer(d, "True"):
+            # the controller did not take the answer for the loop's condition: reported by the caller; go on with its entry point
+            self.unrecognised = self.cond_node(d, i - 1)
+            self.controller._instantiate_next_dowhile_iteration(meta)
         return sorted(set(self.wg.graph.nodes) - before)
+
+    def cond_node(self, d, i):
+        sh = self.sh
+        return "stage%d.%d#%s" % (off(sh, d) + body(sh, sh["cond"]), i, names_of(sh)[sh["cond"]])
+
+    def answer(self, d, text):
+        """the condition producer of the newest iteration of loop d finishes with `text` as its condition: what
+        Controller.finishedCheck does for it (lookup of the component among the registered conditions, then
+        _handle_condition_component_finished, which reads the condition and unrolls on "true").  -> was it recognised"""
+        import experiment.model.codes
+        state = self.wg._documents["DoWhile"][self.doc_id(d)]["state"]
+        spec_k = self.k_of_loop[d]
+        node = self.cond_node(d, spec_k)
+        cs = self.wg.graph.nodes[node]["componentSpecification"]
+        wdir = self.inst.workingDirectoryForComponent(cs.identification.stageIndex, cs.identification.componentName)
+        os.makedirs(wdir, exist_ok=True)
+        with open(os.path.join(wdir, "out.stdout" if self.sh["cond"] == "W" else "flag.txt"), "w") as f:
+            f.write(text + "\n")
+        if self.sh["cond"] == "W":
+            self.content[node] = text
+            self.stdout_done.add(node)
+        comp = self.wg.graph.nodes[node]["component"]()
+        comp.controllerState = experiment.model.codes.FINISHED_STATE       # as initialise() marks finished components
+        dw_name = self.controller.comp_condition_to_dowhile.get(node)
+        if dw_name is None:
+            return False
+        self.controller._handle_condition_component_finished(comp, dw_name)
+        return True
 
     def inspect(self, kind):
         """the read-only entry points of the controller (spec action Inspect)"""
@@ -423,9 +458,9 @@ def compare(real, st, new_names, step, every_instance=True):
                     except Exception as e:
                         out.append(("outside-resolve", "%s: resolving %s raised %r" % (cn, ref, e)))
                         continue
-                    want = {"ref": os.path.join(sdir, nm_of(hi)), "output": full(hi),
+                    want = {"ref": os.path.join(sdir, nm_of(hi)), "output": real.content.get(full(hi), full(hi)),
                             "loopref": " ".join(os.path.join(sdir, nm_of(i)) for i in seq),
-                            "loopoutput": " ".join(full(i) for i in seq)}[m]
+                            "loopoutput": " ".join(real.content.get(full(i), full(i)) for i in seq)}[m]
                     if got != want:
                         short = got.replace(stages_dir, "").split() if isinstance(got, str) else got
                         out.append(("aggregate-order" if m in AGG else "outside-resolve",
@@ -550,15 +585,43 @@ def run_history(args):
                 label, str(real.validation_error)[:400]), {"sh": sh, "path": []}))
         check(None, None)
         inspections()
+        aborted = False
         for d in path:
             k[d] += 1
             try:
                 new = real.iterate(d, k[d])
             except Exception as e:
                 raises("unroll", e, sum(k.values()))
+                aborted = True
                 break
+            real.k_of_loop[d] = k[d]
+            if real.unrecognised:
+                res["viol"].append(("controller-condition:not-recognised", "shape %s path %s: the condition producer %s of the newest iteration finished "
+                                    "with 'True' but the Controller does not treat it as the condition of loop %d (registered: %s): no further "
+                                    "iteration would be created" % (label, path[:sum(k.values())], real.unrecognised, d,
+                                                                    sorted(real.controller.comp_condition_to_dowhile)),
+                                    {"sh": sh, "path": path[:sum(k.values())], "via": via}))
+                real.unrecognised = None
             check((d, k[d]), new)
             inspections()
+        if real.controller is not None and not aborted:
+            # spec action Finish: the newest condition of every loop answers "false": the loop is over, nothing is unrolled
+            for d in loops(sh):
+                before = set(real.wg.graph.nodes)
+                try:
+                    ok = real.answer(d, "False")
+                except Exception as e:
+                    raises("finish", e, len(path))
+                    continue
+                if not ok:
+                    res["viol"].append(("controller-condition:not-recognised", "shape %s path %s: the Controller does not treat %s as the condition of "
+                                        "loop %d (registered: %s)" % (label, path, real.cond_node(d, k[d]), d, sorted(real.controller.comp_condition_to_dowhile)),
+                                        {"sh": sh, "path": path, "via": via}))
+                extra = set(real.wg.graph.nodes) - before
+                if extra:
+                    res["viol"].append(("loop-end:unrolled-after-false", "shape %s path %s: the condition of loop %d answered 'False' but %s were created" % (
+                        label, path, d, sorted(extra)), {"sh": sh, "path": path, "via": via}))
+            check(None, None, after=["Finish"])
     except MachineryError:
         raise
     except Exception as e:
@@ -575,7 +638,7 @@ def label_of(sh):
                                                          "-sc%d" % sh["sc"] if sh["cond"] == "S" else "",
                                                        "-repl%d" % sh["repl"] if sh["repl"] else "", "-tricky" if sh["names"] == "tricky" else "",
                                                        "-twin" if sh["twin"] else "") + (
-        "-inp_%s%s" % (sh.get("meth"), "_file" if sh.get("file") else "") if (sh.get("file") or sh.get("meth", "output") != "output") else "")
+        "-inp_%s%s" % (sh.get("meth"), "_pathinreference" if sh.get("cfile") else "_file" if sh.get("file") else "") if (sh.get("file") or sh.get("meth", "output") != "output") else "")
 
 
 def cfg_text(maxk, maxk2, offsets, names, repls, twins, emit, invariants=True, extra=""):
@@ -586,7 +649,7 @@ def cfg_text(maxk, maxk2, offsets, names, repls, twins, emit, invariants=True, e
         maxk, maxk2, s(str(o) for o in offsets), s('"%s"' % x for x in names), s(str(r) for r in repls),
         s("TRUE" if t else "FALSE" for t in twins), "TRUE" if emit else "FALSE")
     if invariants:
-        body_ += "".join("INVARIANT %s\n" % i for i in INVARIANTS) + "PROPERTY InspectReadOnly\n"
+        body_ += "".join("INVARIANT %s\n" % i for i in INVARIANTS) + "PROPERTY InspectReadOnly\nPROPERTY FinishedLoopsStay\n"
     return body_ + extra
 
 
@@ -628,7 +691,7 @@ def run(tier):
     r = tlc.run_tlc("DoWhile", c1, timeout=600, coverage=True)
     if not r["ok"]:
         raise MachineryError("DoWhile.tla: %s fails on the model:\n%s" % (r["violated"], r["out"][-2000:]))
-    for act in ("Iterate", "Inspect"):
+    for act in ("Iterate", "Inspect", "Finish"):
         if not r["coverage"].get(act):
             raise MachineryError("action %s of DoWhile.tla never taken: %s" % (act, r["coverage"]))
     chk.add_tlc(r)
@@ -648,7 +711,7 @@ def run(tier):
     by_shape = {}
     for st in r3["cases"]:
         by_shape.setdefault(shape_key(st["sh"]), {})[tuple(st["k"])] = st
-    if len(by_shape) < 150 or len(r3["cases"]) * 16 != r["distinct"]:     # one emitted state per set of inspections
+    if len(by_shape) < 150 or len(r3["cases"]) < 2 * len(by_shape):
         raise MachineryError("TLC emitted %d states of %d shapes, model has %d states" % (len(r3["cases"]), len(by_shape), r["distinct"]))
     jobs = []
     for sk in sorted(by_shape):
